@@ -421,11 +421,12 @@ def _has_run(case, n):
 
 
 def match_c17_d10(case, impl, model):
-    """D10 seen through Metadata: a Version / Requires-Python / Requires-Dist value with a run of more than 4300 digits makes int() raise
-    a bare ValueError (CPython's digit limit), which escapes from from_raw / from_email / the lazy read instead of InvalidMetadata.
-    Instance = such a run in the input AND exactly ValueError escapes.  (For Version the model's own parser has no digit limit; for the
-    two oracle components the model predicts the escape from the oracle table.)"""
-    return case.cmd in ("m.from_raw", "m.from_email", "m.from_email_doc") and impl == "!EXC:ValueError" and _has_run(case, 4301)
+    """D10 seen through Metadata: a Version value with a component of more than 4300 digits is PEP 440 valid (the model's Version has no
+    digit limit) but the code reports the Version field as invalid (InvalidMetadata since fix 71d4b23; a bare ValueError escaped before).
+    Instance = such a run in the input AND the implementation names 'version' among the offending fields (or refuses the read) where the
+    model does not."""
+    if case.cmd not in ("m.from_raw", "m.from_email", "m.from_email_doc") or not _has_run(case, 4301) or impl == model: return False
+    return isinstance(impl, str) and not impl.startswith("!EXC") and "version" in impl and "version" not in str(model).split("|")[0]
 
 
 def match_c17_deep(case, impl, model):
